@@ -324,7 +324,50 @@ def probes():
   v = api_view(d, 'checkpoint_')
   out['F14-orbax-overwrite-crash'] = {'fails': v['latest'] == '3' and isinstance(v['restore_latest'], str), 'view': v}
   rm(d, ignore_errors=True)
+  out['restore_with_target'] = restore_with_target(d)
+  rm(d, ignore_errors=True)
   return out
+
+
+def restore_with_target(root):
+  """realistic train-state-like trees (lists / tuples of 1, 3, 10, 12 and 23 entries, nested dicts, a namedtuple) saved at three steps
+  with keep=2 on both back-ends; the latest and an explicitly named retained step restored into a zero template and with target=None"""
+  import collections
+  Pt = collections.namedtuple('Pt', ['a', 'b'])
+  bad = []
+
+  def state(step, n, zero=False):
+    f = (lambda i: 0) if zero else (lambda i: 100 * step + i)
+    return {'step': np.asarray(0 if zero else step, np.int32),
+            'layers': [{'w': np.full((2, 2), f(i), np.float32)} for i in range(n)],
+            'opt': tuple(np.full((3,), f(i), np.int32) for i in range(n)),
+            'pt': Pt(np.asarray(f(7)), {'k%d' % j: np.asarray(f(j)) for j in range(n)})}
+
+  def flat(t):
+    return [np.asarray(x).tolist() for x in jax.tree_util.tree_leaves(t)]
+  import jax
+  for backend in ('legacy', 'orbax'):
+    fconfig.update('flax_use_orbax_checkpointing', backend == 'orbax')
+    for n in (1, 3, 10, 12, 23):
+      d = os.path.join(root, '%s_%d' % (backend, n))
+      os.makedirs(d)
+      saved = {}
+      try:
+        for step in (1, 2, 3):
+          saved[step] = state(step, n)
+          C.save_checkpoint(d, saved[step], step, keep=2)
+        for label, kw, want in (('latest', {}, 3), ('step=2', {'step': 2}, 2)):
+          got = C.restore_checkpoint(d, state(0, n, zero=True), **kw)
+          if jax.tree_util.tree_structure(got) != jax.tree_util.tree_structure(saved[want]) or flat(got) != flat(saved[want]):
+            bad.append({'backend': backend, 'entries': n, 'restore': label + ' into a template', 'saved_leaves': flat(saved[want])[:30], 'restored_leaves': flat(got)[:30]})
+          raw = C.restore_checkpoint(d, None, **kw)
+          ok = int(np.asarray(raw['step'])) == want and all(np.array_equal(np.asarray(raw['layers'][str(i)]['w']), saved[want]['layers'][i]['w']) for i in range(n)) \
+              and all(np.array_equal(np.asarray(raw['opt'][str(i)]), saved[want]['opt'][i]) for i in range(n))
+          if not ok:
+            bad.append({'backend': backend, 'entries': n, 'restore': label + ' with target=None'})
+      except BaseException as e:  # pylint: disable=broad-except
+        bad.append({'backend': backend, 'entries': n, 'exc': type(e).__name__, 'msg': str(e)[:200]})
+  return bad
 
 
 if __name__ == '__main__':
